@@ -127,6 +127,7 @@ def run(tier):
     proof_leg(ck)
     stream_leg(ck, tier)
     emitted_leg(ck)
+    threads_leg(ck, tier)
     ck.sample({'value': '-0x180000000', 'rfc_bytes': bytes([0, 0, 0, 5, 0xfe, 0x80, 0, 0, 0]).hex()})
     ck.cov['rule'] = ('TLC enumerates every magnitude up to %d bytes over {00,01,7f,80,ff} with both signs and every name-list up to length 3 over 4 names, checking '
                       'the inverse/minimality laws and the framing law for 0..4096; plus a dense window around 0, +-2^k(+-1) for k <= 96 and up to 8192, word-pattern '
@@ -234,6 +235,87 @@ class _Seg:
 
     def close(self):
         pass
+
+
+def threads_leg(ck, tier):
+    """The decoders are shared by the worker threads of a target list (the SSH-1 checksum object is created once per process, on first
+    use): several SSH-1 servers audited at once, under a schedule that switches threads as often as the interpreter can, are each
+    decoded as when audited alone - every valid packet is accepted and every report is the single-target report."""
+    from checks import multi
+    mk = lambda cm, am, name: peers.ServerCfg(banner=b'SSH-1.5-' + name, ssh1={'cmask': cm, 'amask': am}, wrong_version_text=b'Protocol major versions differ.')  # noqa
+    tg = [('server', mk(0x48, 0x0c, b'OldA_1.2')), ('server', mk(0x2c, 0x0e, b'OldB_1.2')), ('server', mk(0x4c, 0x1c, b'OldC_1.2')), ('server', mk(0x08, 0x08, b'OldD_1.2'))]
+    refs = runner.run_many([multi.single_scenario(t, i, json_out=True, extra=['-1']) for i, t in enumerate(tg)])
+    if any(r.get('harness_error') or r.get('hang') or r.get('exit') not in (0, 2, 3) for r in refs):
+        raise common.Machinery('SSH-1 reference runs failed: %r' % [r.get('exit') for r in refs])
+    ref_docs = [json.loads(r['stdout']) for r in refs]
+    n = 40 if tier == 'quick' else 400
+    sc, labels = multi.scenario(tg, 4, None, json_out=True, extra=['-1'])
+    scs = [multi.eager(sc) for _ in range(n)]
+    for r in runner.run_many(scs):
+        ck.evaluated()
+        replay = {'argv': sc['argv'], 'exit': r.get('exit'), 'stdout': (r.get('stdout') or '')[-3000:]}
+        if r.get('harness_error'):
+            raise common.Machinery('threads leg run failed: %r' % r.get('harness_error'))
+        if r.get('hang'):
+            ck.violation('threads-run-did-not-complete', 'four SSH-1 targets on four threads: the run never ended', replay)
+            continue
+        out = r['stdout']
+        if 'checksum' in out and 'mismatch' in out:
+            ck.violation('valid-ssh1-packet-rejected threads=4', 'a valid SSH-1 packet is rejected (checksum mismatch) when several SSH-1 servers are audited at once', replay)
+            continue
+        try:
+            doc = json.loads(out)
+        except ValueError:
+            ck.violation('threads-json-unparsable', 'stdout of the four-target run is not JSON', replay)
+            continue
+        got = {el.get('target'): el for el in doc if isinstance(el, dict)}
+        bad = [lab for i, lab in enumerate(labels) if got.get(lab) != ref_docs[i]]
+        if bad:
+            ck.violation('ssh1-decoding-differs-under-threads', 'targets %r: the result differs from the single-target result' % bad, replay)
+        else:
+            ck.cov['traces_validated_against_impl'] += 1
+    ck.nontrivial(('threads-leg',))
+    ck.notes.append('threads leg: %d four-target SSH-1 runs under schedule perturbation' % n)
+    # ... and deterministically: two SSH-1 targets on two threads, one preempted after every block of source lines of the tool's own
+    # code (SshSched plans at line granularity) - wherever the first thread stands, also in the middle of building a shared
+    # table, the second one decodes its packets as when run alone
+    for order in ((0, 1), (1, 0)):
+        pair = [tg[order[0]], tg[order[1]]]
+        sc2, labels2 = multi.scenario(pair, 2, None, json_out=True, extra=['-1'])
+        refs2 = [ref_docs[order[0]], ref_docs[order[1]]]
+        # (the reference documents name the target by its position in the list: compare everything but the target label)
+        probe = runner.run_many([multi.scheduled(sc2, [[0, -1], [1, -1]], labels2, lines=True)])[0]
+        if probe.get('harness_error') or not probe.get('sched'):
+            raise common.Machinery('threads leg: line-granular probe run failed: %r' % probe.get('harness_error'))
+        ops = [max(1, probe['sched']['ops'].get(l, 0)) for l in labels2]
+        stride = max(1, max(ops) // (40 if tier == 'quick' else 200))
+        plans, _ = multi.schedule_plans(ck, [-(-o // stride) for o in ops], 1)
+        plans = [[[w, (k * stride if k > 0 else k)] for w, k in pl] for pl in plans]
+        for pl, r in zip(plans, runner.run_many([multi.scheduled(sc2, pl, labels2, lines=True) for pl in plans])):
+            ck.evaluated()
+            replay = {'argv': sc2['argv'], 'plan_in_source_lines': pl, 'exit': r.get('exit'), 'stdout': (r.get('stdout') or '')[-3000:], 'sched': r.get('sched')}
+            if r.get('harness_error'):
+                raise common.Machinery('threads leg run failed: %r' % r.get('harness_error'))
+            if r.get('hang'):
+                ck.violation('threads-run-did-not-complete', 'two SSH-1 targets on two threads under the schedule %r: the run never ended' % (pl,), replay)
+                continue
+            out = r['stdout']
+            if 'checksum' in out and 'mismatch' in out:
+                ck.violation('valid-ssh1-packet-rejected threads=2 scheduled', 'a valid SSH-1 packet is rejected (checksum mismatch) when one worker is preempted after %d source lines' % pl[0][1], replay)
+                continue
+            try:
+                doc = json.loads(out)
+            except ValueError:
+                ck.violation('threads-json-unparsable', 'stdout of the two-target run is not JSON', replay)
+                continue
+            got = {el.get('target'): el for el in doc if isinstance(el, dict)}
+            strip = lambda d: {k: v for k, v in (d or {}).items() if k != 'target'}      # noqa
+            bad = [lab for i, lab in enumerate(labels2) if strip(got.get(lab)) != strip(refs2[i])]
+            if bad:
+                ck.violation('ssh1-decoding-differs-under-threads scheduled', 'targets %r under the schedule %r: the result differs from the single-target result' % (bad, pl), replay)
+            else:
+                ck.cov['traces_validated_against_impl'] += 1
+                ck.nontrivial(('threads-scheduled', order, json.dumps(pl)))
 
 
 def proof_leg(ck):
